@@ -564,9 +564,14 @@ class ServermapUpdater:
 
     def _send_initial_requests(self, serverlist):
         self._status.set_status("Sending %d initial queries" % len(serverlist))
-        self._queries_outstanding = set()
+        # Register every initial query before sending the first one: a query
+        # to a server whose connection has just gone away fails synchronously
+        # (DeadReferenceError), and _check_for_done() then runs inside this
+        # loop. If the servers not yet asked were missing from
+        # _queries_outstanding it would conclude that every query had retired
+        # and finish the map update without waiting for the live servers.
+        self._queries_outstanding = set(serverlist)
         for server in serverlist:
-            self._queries_outstanding.add(server)
             self._do_query(server, self._storage_index, self._read_size)
 
         if not serverlist:
